@@ -119,5 +119,14 @@ CHECKS["C02"] = {
     "quick": {"checks": 25, "timeout": 1500, "env": {"VERIF_C02_MUTATIONS": 10}},
     "thorough": {"checks": 400, "timeout": 3400, "shards": 8, "env": {"VERIF_C02_MUTATIONS": 25}},
 }
+CHECKS["C05"] = {
+    "pkg": "./props/c05",
+    "level": "exploration",
+    "technique": "differential property-based testing (rapid) against independent reference verifiers and specification-derived reference computations",
+    "level_text": "relic-signed artefacts (generated PE, MSI, JAR, APK with members around the 1 MiB chunk size, PGP payloads; fixtures for DEB and RPM; drawn key, digest and options) are handed to code that shares nothing with relic: jarsigner -verify -strict with the harness CA as trust anchor; openssl cms -verify of the JAR signature block over the .SF file (chain to the harness CA); gpgv for detached / clearsign / inline PGP signatures (recovered text compared), for DEB role members (plus md5sum/sha1sum/size of every listed member, dpkg-deb -I/-c) and for the RPM header-only and header+payload signatures cut out of the signature header by an independent parser; and reference computations written from the specifications, compared with the digest the independent DER walker extracts from relic's signature: Authenticode PE image hash, page-hash table, PE checksum, WIN_CERTIFICATE framing and alignment, APK Signature Scheme v2 chunked digest, MSI stream-order digest and MsiDigitalSignatureEx pre-hash. Authenticode SignedData is verified with the DER walker + Go crypto.",
+    "level_note": "signtool, codesign, apksigner, msiexec and .NET are not available offline: platform acceptance is approximated by the reference computations. JDK policy treats SHA-1 JAR signatures as unsigned (counted, not judged); inputs the JDK's own ZIP reader refuses are counted, not judged. The CAB header digest, XAR/Mach-O CMS and VSIX (see C19) are not covered here.",
+    "quick": {"checks": 40, "timeout": 1500},
+    "thorough": {"checks": 600, "timeout": 3400, "shards": 8},
+}
 for _pid in CHECKS:
     NOT_APPLICABLE.pop(_pid, None)
